@@ -429,6 +429,7 @@ type Clause struct {
 type LoopSpec struct {
 	Invariants []Clause
 	Steps      []Clause // two-state conditions checked at every back edge; prev(e) = value at loop head
+	Entries    []Clause // conditions checked where the loop is entered (not on back edges, never assumed)
 	Decreases  *Clause
 }
 
@@ -745,6 +746,8 @@ func (c *Contracts) loadFile(path string, pkgName string) error {
 				ls.Decreases = &cl
 			case "step":
 				ls.Steps = append(ls.Steps, cl)
+			case "entry":
+				ls.Entries = append(ls.Entries, cl)
 			default:
 				return fmt.Errorf("%s:%d: bad loop clause kind %s", path, j.line, parts[1])
 			}
